@@ -147,6 +147,12 @@ func (c *streamCore[I, O]) Receive() (I, error) {
 }
 
 func (c *streamCore[I, O]) close() error {
+	// close is reached again by every Receive after the terminal one
+	select {
+	case <-c.normalShutdownSig:
+		return nil
+	default:
+	}
 	close(c.normalShutdownSig)
 	<-c.successfulShutdown
 	return c.conn.Close()
